@@ -399,6 +399,59 @@ func isHexSha256(fn *ssa.Function) (bool, string) {
 			if !ok || an.CalleeOf(call).FullName() != "encoding/hex.EncodeToString" {
 				return false, "returned value is not hex.EncodeToString(...)"
 			}
+			// streaming form: h := sha256.New(); io.WriteString(h, arg) / h.Write([]byte(arg)); hex.EncodeToString(h.Sum(nil))
+			if sumCall, ok := call.Call.Args[0].(*ssa.Call); ok && sumCall.Call.IsInvoke() && sumCall.Call.Method.Name() == "Sum" && len(sumCall.Call.Args) == 1 && an.IsNilConst(sumCall.Call.Args[0]) {
+				h, ok := an.Strip(sumCall.Call.Value).(*ssa.Call)
+				if !ok || an.CalleeOf(h).FullName() != "crypto/sha256.New" {
+					return false, "digest is not taken from sha256.New()"
+				}
+				writes := 0
+				for _, ref := range an.Referrers(h) {
+					switch x := ref.(type) {
+					case *ssa.Call:
+						if x == sumCall {
+							continue
+						}
+						var in ssa.Value
+						if x.Call.IsInvoke() && (x.Call.Method.Name() == "Write" || x.Call.Method.Name() == "WriteString") && len(x.Call.Args) == 1 {
+							in = x.Call.Args[0]
+						}
+						if an.CalleeOf(x).FullName() == "io.WriteString" && len(x.Call.Args) == 2 {
+							in = x.Call.Args[1]
+						}
+						if in == nil {
+							return false, "the hash state is used by something other than a write of the argument"
+						}
+						if cv, ok := in.(*ssa.Convert); ok {
+							in = cv.X
+						}
+						if an.Strip(in) != ssa.Value(fn.Params[0]) {
+							return false, "something other than the function's argument is hashed"
+						}
+						writes++
+					case *ssa.MakeInterface, *ssa.ChangeInterface:
+						// io.WriteString(h, …) boxes the hash as an io.Writer
+						for _, r2 := range an.Referrers(x.(ssa.Value)) {
+							c2, ok := r2.(*ssa.Call)
+							if !ok || an.CalleeOf(c2).FullName() != "io.WriteString" {
+								return false, "the hash state escapes"
+							}
+							in := c2.Call.Args[1]
+							if an.Strip(in) != ssa.Value(fn.Params[0]) {
+								return false, "something other than the function's argument is hashed"
+							}
+							writes++
+						}
+					case *ssa.DebugRef:
+					default:
+						return false, "the hash state escapes"
+					}
+				}
+				if writes != 1 {
+					return false, "the argument is not written to the hash exactly once"
+				}
+				continue
+			}
 			sl, ok := call.Call.Args[0].(*ssa.Slice)
 			if !ok || sl.Low != nil || sl.High != nil {
 				return false, "hex input is not the whole digest"
